@@ -39,6 +39,7 @@ type workResp struct {
 
 // invokeFresh is sdk.InvokeThriftgo without its package-level generator (GoBackend keeps its error state).
 func invokeFresh(args []string) (err error) {
+	resetNamingStyles()
 	var a targs.Arguments
 	if err = a.Parse(append([]string{"thriftgo"}, args...)); err != nil {
 		return err
